@@ -45,6 +45,8 @@ func (f *Formatter) formatExpression(expr ast.Expression) *ChunkBuffer {
 		buf.Append(f.formatGroupedExpression(t))
 	case *ast.InfixExpression:
 		buf.Append(f.formatInfixExpression(t))
+	case *ast.PostfixExpression:
+		buf.Write(f.formatPostfixExpression(t), Token)
 	}
 
 	// trailing comment
@@ -126,6 +128,11 @@ func (f *Formatter) formatInfixExpression(expr *ast.InfixExpression) *ChunkBuffe
 	buf.Append(f.formatExpression(expr.Right))
 
 	return buf
+}
+
+// Format postfix expression like "50%", the operator must follow the left expression without whitespace
+func (f *Formatter) formatPostfixExpression(expr *ast.PostfixExpression) string {
+	return f.formatExpression(expr.Left).String() + expr.Operator
 }
 
 // Format prefix expression like `if(req.http.Foo, "foo", "bar")`
